@@ -376,7 +376,7 @@ class ATP_Store:
             ratio = total_current / total_capacity
 
         # Account for debt
-        if self._debt > 0:
+        if self._debt > 0 and total_capacity > 0:
             ratio -= (self._debt / total_capacity) * 0.5
 
         if ratio <= self.STARVING_THRESHOLD:
